@@ -13,6 +13,9 @@ pub open spec fn consistent<F: Fn(&FixtureDefinition) -> bool>(f: F, fs: spec_fn
     forall|d: &FixtureDefinition, b: bool| #[trigger] call_ensures(f, (d,), b) ==> b == fs(dv(d))
 }
 
+pub open spec fn fs_true() -> spec_fn(DefV) -> bool { |d: DefV| true }
+pub open spec fn fs_excl(e: Option<DefV>) -> spec_fn(DefV) -> bool { |d: DefV| match e { Some(x) => d != x, None => true } }
+
 pub open spec fn first_match(ds: Seq<DefV>, p: spec_fn(DefV) -> bool) -> Option<DefV>
     decreases ds.len()
 {
@@ -168,4 +171,9 @@ pub proof fn lemma_resolve_empty()
         #[trigger] op_resolve(Seq::<DefV>::empty(), file, prov, fs) is None by {
         lemma_walk_empty(file.drop_last(), prov, fs);
     }
+}
+
+/// postcondition of the resolver for one spec predicate fs describing the filter
+pub open spec fn resolve_post(r: Option<FixtureDefinition>, ds: Seq<DefV>, file: PV, prov: spec_fn(PV) -> bool, fs: spec_fn(DefV) -> bool) -> bool {
+    opt_dv(r) == op_resolve(ds, file, prov, fs)
 }
